@@ -406,7 +406,7 @@ func TestPropReadersSymlinkAndUpdater(t *testing.T) {
 				case "updater.File.Unpack":
 					id := "x/data.txt.gz"
 					packed := filepath.Join(storageDir, "x", fmt.Sprintf("data_v1-0-%d.txt.gz", i))
-					if err := writeFileMode(packed, gzipBytes(data), 0o644); err != nil {
+					if err := writeFileMode(packed, gzipMembers(data, 1+i%3), 0o644); err != nil {
 						return err
 					}
 					current.Store(&version{path: filepath.Join(storageDir, "x", fmt.Sprintf("data_v1-0-%d.txt", i)), data: data})
